@@ -965,6 +965,7 @@ func countFiles(n *Node) int {
 func (e *engine) Execute(raw json.RawMessage) (vd harness.Verdict) {
 	e.setup()
 	calOnce.Do(calibrate)
+	slip.VerifResetPrinter() // lazily grown process-global printer state: the same for every case
 	var c Case
 	if err := json.Unmarshal(raw, &c); err != nil {
 		panic(err)
